@@ -201,4 +201,20 @@ example : specLookup [.path "a::b::c" fW, .path "a" fE] (segments "a::b::c::d") 
 example : specLookup [.path "a" fE, .path "a::b::c" fW] (segments "a::b") = some fE := by decide
 example : ([Reg.path "a" fE, .path "a::b" fW].map Reg.segs).Nodup := by decide
 
+
+/-- `Path::segments` inverts joining: the `::`-join of colon-free segments splits back into them. -/
+theorem segments_of_join (segs : List (List Char)) (hne : segs ≠ []) (h : ∀ s ∈ segs, ColonFree s) :
+    splitColons (joinSegs segs) [] = segs := splitColons_join segs hne h
+
+/-- **"An ancestor of it at `::` boundaries".** The segment-prefix relation the trie and the specification use
+    is exactly `Path::is_child_of` on the path texts: a registered path governs a module iff the module's text
+    is the path's text followed by nothing or by `::…` (so `aa::b` is not governed by `a`). -/
+theorem prefix_iff_is_child_of (ps ms : List (List Char)) (hp : ps ≠ []) (hm : ms ≠ [])
+    (hps : ∀ s ∈ ps, ColonFree s) (hms : ∀ s ∈ ms, ColonFree s) :
+    isChildOf (joinSegs ms) (joinSegs ps) = true ↔ ps <+: ms :=
+  (isChildOf_iff _ _).trans (prefix_iff_child ps ms hp hm hps hms)
+
+example : isChildOf "aa::b".toList "a".toList = false := by decide
+example : isChildOf "a::b".toList "a".toList = true := by decide
+
 end EmitModel.C17
